@@ -129,7 +129,7 @@ func (ch c19) server(cfg c19cfg) *hs.Env {
 				st.hookEntered <- struct{}{}
 				select {
 				case <-st.hookGate:
-				case <-time.After(20 * time.Second):
+				case <-time.After(60 * time.Second):
 				}
 			}
 			return nil
@@ -199,7 +199,7 @@ func (ch c19) server(cfg c19cfg) *hs.Env {
 				st.stmtEntered <- struct{}{}
 				select {
 				case <-st.stmtGate:
-				case <-time.After(20 * time.Second):
+				case <-time.After(60 * time.Second):
 				}
 			}
 			return w.Complete("OK")
@@ -426,7 +426,7 @@ func (ch c19) runConn(c *core.Ctx, env *hs.Env, cfg c19cfg, ending string, rng *
 		cl.C.Send(pg.Terminate())
 		select {
 		case <-st.hookEntered:
-		case <-time.After(20 * time.Second):
+		case <-time.After(60 * time.Second):
 			viol("terminate-hook", "terminate hook not invoked for a Terminate message", "")
 			return
 		}
@@ -437,7 +437,7 @@ func (ch c19) runConn(c *core.Ctx, env *hs.Env, cfg c19cfg, ending string, rng *
 		b.C.Send(pg.Query("held"))
 		select {
 		case <-stB.stmtEntered:
-		case <-time.After(20 * time.Second):
+		case <-time.After(60 * time.Second):
 			viol("neighbour", "a connection accepted while another connection's terminate hook runs is not served", replyKinds(b.C.Out()))
 			close(st.hookGate)
 			return
